@@ -37,8 +37,16 @@ type vpair struct {
 	ctx     []byte
 }
 
+// reusedOpts: when non-nil, opts() re-uses this one Options object for every call, overwriting its fields (a caller may
+// keep one Options value and change its Context / Hash between calls: the library must read the fields of each call)
+var reusedOpts *ed25519.Options
+
 func (p vpair) opts(zip bool) *ed25519.Options {
-	o := &ed25519.Options{ZIP215Verify: zip, Context: string(p.ctx)}
+	o := &ed25519.Options{}
+	if reusedOpts != nil {
+		o = reusedOpts
+	}
+	o.ZIP215Verify, o.Context, o.Hash = zip, string(p.ctx), crypto.Hash(0)
 	if p.variant == "ph" {
 		o.Hash = crypto.SHA512
 	}
@@ -240,6 +248,25 @@ func runSign() {
 			msg, _ := hex.DecodeString(f.msg)
 			all = append(all, doSign(seed, pairs[0], msg))
 		}
+	}
+
+	// ---- one Options object re-used across calls, its Context / Hash overwritten in between: contexts of EQUAL length that
+	// differ, the same context under ctx and ph, back and forth ---
+	if prop == "C02" || prop == "C03" || prop == "C07" || prop == "" {
+		reusedOpts = &ed25519.Options{}
+		seed := r.Bytes(32)
+		cA, cB := bytes.Repeat([]byte{'a'}, 16), bytes.Repeat([]byte{'b'}, 16)
+		c1, c2 := []byte{1}, []byte{2}
+		seq := []vpair{{"ctx", cA}, {"ctx", cB}, {"ph", cB}, {"ph", cA}, {"ctx", cA}, {"pure", nil}, {"ctx", c1}, {"ctx", c2}, {"ph", c2}, {"ph", nil}, {"ctx", c1},
+			{"ph", c1}, {"ctx", cB}, {"ctx", cA}}
+		for _, p := range seq {
+			n := 40
+			if p.variant == "ph" {
+				n = 64
+			}
+			all = append(all, doSign(seed, p, r.Bytes(n)))
+		}
+		reusedOpts = nil
 	}
 
 	// ---- message-length sweep (block boundaries of SHA-512 and of any buffering) and bulk round trips ---
